@@ -42,7 +42,8 @@ func parseRFC3339Timestamp(timeStr string, timezoneCache map[string]*time.Locati
 			}
 			tzName, tzOffset := z.Zone()
 			location = time.FixedZone(tzName, tzOffset)
-			timezoneCache[tzStr] = location
+			// the key has to own its bytes: tzStr is a view into the record's buffer, which is recycled for other records
+			timezoneCache[strings.Clone(tzStr)] = location
 		}
 	} else {
 		location = time.Local
